@@ -137,6 +137,84 @@ theorem mem_normalize (x : Int) (l : IvList) : IvList.Mem x (normalize l) ↔ Iv
   rw [mem_perm (sortIv_perm l) x]
   simp [mem_nil]
 
+/-! ### `Normalize` produces the normal form -/
+
+theorem normal_snoc_lt {l : IvList} {a : Interval} (h : Normal (l ++ [a])) : ∀ i ∈ l, i.stop < a.start := by
+  induction l with
+  | nil => intro i hi; cases hi
+  | cons iv l ih =>
+    rw [List.cons_append] at h
+    intro i hi
+    rcases List.mem_cons.mp hi with rfl | hi
+    · exact h.above a (List.mem_append.mpr (Or.inr (List.mem_cons_self ..)))
+    · exact ih h.tail i hi
+
+theorem normal_snoc_replace {l : IvList} {a b : Interval} (h : Normal (l ++ [a]))
+    (hs : b.start = a.start) (he : a.stop ≤ b.stop) : Normal (l ++ [b]) := by
+  induction l with
+  | nil =>
+    have := (normal_single a).mp h
+    exact (normal_single b).mpr (by omega)
+  | cons iv l ih =>
+    rw [List.cons_append] at h ⊢
+    apply normal_cons_of h.head
+    · intro j hj
+      rcases List.mem_append.mp hj with hj | hj
+      · exact h.above j (List.mem_append.mpr (Or.inl hj))
+      · have hb : j = b := by simpa using hj
+        have := h.above a (List.mem_append.mpr (Or.inr (List.mem_cons_self ..)))
+        rw [hb]; omega
+    · exact ih h.tail
+
+/-- the merge loop yields the normal form when every interval is non-empty -/
+theorem normal_mergeSorted : ∀ (l acc : IvList), StartSorted l → (∀ j ∈ l, j.start < j.stop) →
+    Normal acc.reverse → (∀ last ∈ acc.head?, ∀ j ∈ l, last.start ≤ j.start) →
+    Normal (mergeSorted acc l) := by
+  intro l
+  induction l with
+  | nil => intro acc _ _ hn _; unfold mergeSorted; exact hn
+  | cons iv r ih =>
+    intro acc hs hne hn hh
+    unfold StartSorted at hs
+    rw [List.pairwise_cons] at hs
+    have hiv : iv.start < iv.stop := hne iv (List.mem_cons_self ..)
+    have hne' : ∀ j ∈ r, j.start < j.stop := fun j hj => hne j (List.mem_cons_of_mem _ hj)
+    cases acc with
+    | nil =>
+      unfold mergeSorted
+      exact ih [iv] hs.2 hne' ((normal_single iv).mpr hiv)
+        (by intro last hl j hj; simp at hl; subst hl; exact hs.1 j hj)
+    | cons last acc' =>
+      have hli : last.start ≤ iv.start := hh last (by simp) iv (by simp)
+      rw [List.reverse_cons] at hn
+      unfold mergeSorted
+      split
+      · rename_i hgt
+        refine ih (iv :: last :: acc') hs.2 hne' ?_
+          (by intro l' hl j hj; simp at hl; subst hl; exact hs.1 j hj)
+        rw [List.reverse_cons, List.reverse_cons]
+        refine normal_append hn ((normal_single iv).mpr hiv) ?_
+        intro i hi j hj
+        have hj' : j = iv := by simpa using hj
+        rw [hj']
+        rcases List.mem_append.mp hi with hi | hi
+        · have h1 := normal_snoc_lt hn i hi
+          have h2 := hn.nonempty last (List.mem_append.mpr (Or.inr (List.mem_cons_self ..)))
+          omega
+        · have hi' : i = last := by simpa using hi
+          rw [hi']; omega
+      · refine ih (⟨last.start, max last.stop iv.stop⟩ :: acc') hs.2 hne' ?_
+          (by intro l' hl j hj; simp at hl; subst hl; exact Int.le_trans hli (hs.1 j hj))
+        rw [List.reverse_cons]
+        exact normal_snoc_replace hn rfl (by simp only; omega)
+
+/-- `Normalize` of non-empty intervals is in normal form (sorted, non-empty, separated by gaps) -/
+theorem normal_normalize (l : IvList) (h : ∀ j ∈ l, j.start < j.stop) : Normal (normalize l) := by
+  unfold normalize
+  refine normal_mergeSorted (sortIv l) [] (sortIv_sorted l) ?_ (by simp [Normal]) (by intro last hl; simp at hl)
+  intro j hj
+  exact h j ((sortIv_perm l).mem_iff.mp hj)
+
 /-! ### `Update` is union -/
 
 /-- one step of the `Update` fold -/
@@ -245,5 +323,76 @@ theorem update_union (s o : GtidSet) (ho : (keys o).Nodup) (k : Key) (x : Int) :
   · rintro (h | ⟨l, hl, hx⟩)
     · exact Or.inl h
     · exact Or.inr ⟨l, mem_of_lookup hl, hx⟩
+
+/-! ### `Update` keeps sets well-formed -/
+
+theorem normalize_append_ok (l0 ol : IvList) (h0 : Normal l0) (h1 : Normal ol) (hne : ol ≠ []) :
+    Normal (normalize (l0 ++ ol)) ∧ normalize (l0 ++ ol) ≠ [] := by
+  refine ⟨normal_normalize _ ?_, ?_⟩
+  · intro j hj
+    rcases List.mem_append.mp hj with hj | hj
+    · exact h0.nonempty j hj
+    · exact h1.nonempty j hj
+  · obtain ⟨x, hx⟩ := h1.exists_mem hne
+    intro hnil
+    have := (mem_normalize x (l0 ++ ol)).mpr ((mem_append x l0 ol).mpr (Or.inr hx))
+    rw [hnil] at this
+    exact (mem_nil x).mp this
+
+theorem wf_updStep (acc : GtidSet) (e : Key × IvList) (ha : WF acc) (he : Normal e.2 ∧ e.2 ≠ []) :
+    WF (updStep acc e) := by
+  obtain ⟨kk, ol⟩ := e
+  unfold updStep
+  simp only
+  cases hl : lookup acc kk with
+  | none =>
+    simp only
+    refine ⟨?_, ?_⟩
+    · have hnk : kk ∉ keys acc := by
+        intro hk
+        obtain ⟨l, h⟩ := lookup_isSome_of_key hk
+        rw [hl] at h; cases h
+      unfold keys at *
+      rw [List.map_append, List.nodup_append]
+      refine ⟨ha.1, by simp, ?_⟩
+      intro a ha' b hb
+      have : b = kk := by simpa using hb
+      rw [this]; intro hab; exact hnk (hab ▸ ha')
+    · intro k l hm
+      rcases List.mem_append.mp hm with hm | hm
+      · exact ha.2 k l hm
+      · have : (k, l) = (kk, ol) := by simpa using hm
+        cases this; exact he
+  | some l0 =>
+    simp only
+    refine ⟨?_, ?_⟩
+    · have : keys (acc.map fun (k', l) => if k' = kk then (k', normalize (l ++ ol)) else (k', l)) = keys acc := by
+        unfold keys
+        rw [List.map_map]
+        apply List.map_congr_left
+        rintro ⟨k', l⟩ _
+        simp only [Function.comp]
+        split <;> rfl
+      rw [this]; exact ha.1
+    · intro k l hm
+      obtain ⟨⟨k0, l1⟩, hm0, hf⟩ := List.mem_map.mp hm
+      simp only at hf
+      have h0 := ha.2 k0 l1 hm0
+      split at hf
+      · cases hf
+        exact normalize_append_ok l1 ol h0.1 he.1 he.2
+      · cases hf; exact h0
+
+/-- `Update` of a well-formed set by well-formed entries is well-formed, so every C13 theorem applies
+to a joined position again -/
+theorem wf_update (s o : GtidSet) (hs : WF s) (ho : ∀ k l, (k, l) ∈ o → Normal l ∧ l ≠ []) :
+    WF (update s o) := by
+  rw [update_eq_foldl]
+  induction o generalizing s with
+  | nil => exact hs
+  | cons e r ih =>
+    simp only [List.foldl_cons]
+    exact ih (updStep s e) (wf_updStep s e hs (ho e.1 e.2 List.mem_cons_self))
+      (fun k l hm => ho k l (List.mem_cons_of_mem _ hm))
 
 end GtidLemmas
